@@ -428,3 +428,296 @@ class RegFileMonitor:
                         m = (1 << nb) - 1
                         self.val[k] = (self.val[k] & ~(m << lo)) | ((dat & m) << lo)
         return msg
+
+
+# ---------------------------------------------------------------------------------------------------------
+# Memory windows (csr_bus.SRAM) and bank arrays (CSRBankArray + Interconnect / InterconnectShared)
+
+def lean_sram(bw, pbits, address, width, depth, read_only, init):
+    init = list(init or [])
+    return "%d %d %d %d %d %d %d %s" % (bw, pbits, address, width, depth, int(read_only), len(init),
+                                        " ".join(map(str, init)))
+
+
+class SramInst:
+    """One real `csr_bus.SRAM`, alone.  Letter = (adr, re, we, dat_w, page); outputs = [dat_r].
+    The page register (if any) is not part of a bank here; its `storage` is driven as an input."""
+
+    def __init__(self, name, width=8, depth=4, bw=8, paging=0x800, address=1, aw=14, read_only=False, init=None,
+                 data_values=(0xA5A5A5A5, 0x5A5A5A5A), nadr=None):
+        from migen import Memory
+        self.name = name
+        self.bw, self.aw, self.address = bw, aw, address
+        self.pbits = _log2(paging // 4)
+        self.mem = Memory(width, depth, init=init, name="mem")
+        self.bus = _csr_bus.Interface(data_width=bw, address_width=aw)
+        self.sram = _csr_bus.SRAM(self.mem, address, read_only=read_only, bus=self.bus, paging=paging)
+        self.netlist = Netlist(self.sram)
+        self.page = self.sram._page.storage if self.sram._page is not None else None
+        self.page_bits = len(self.page) if self.page is not None else 0
+        self.lean_open = "sram " + lean_sram(bw, self.pbits, address, width, depth, read_only, init)
+        self.qual = [None]
+        cpm = -(-width // bw)
+        self.nwords = depth * cpm
+        dmask = (1 << bw) - 1
+        base = address << self.pbits
+        nadr = nadr or min(self.nwords, 1 << self.pbits)
+        adrs = [base + a for a in range(nadr)] + [((address ^ 1) << self.pbits)]
+        letters = []
+        for pv in range(1 << self.page_bits):
+            for a in adrs:
+                letters.append((a, 0, 0, 0, pv))
+                for d in data_values:
+                    letters.append((a, 0, 1, d & dmask, pv))
+        self.alphabet = letters
+        self.inputs = self.outputs = None
+        self.depth, self.width, self.cpm, self.read_only = depth, width, cpm, read_only
+        self.init = list(init or [])
+
+    def apply(self, letter):
+        n = self.netlist
+        adr, re, we, dat, pv = letter
+        n.set(self.bus.adr, adr); n.set(self.bus.re, re); n.set(self.bus.we, we); n.set(self.bus.dat_w, dat)
+        if self.page is not None:
+            n.set(self.page, pv)
+        n.settle()
+
+    def sample(self):
+        return [self.netlist.getu(self.bus.dat_r)]
+
+    def nontrivial(self, letter, outs):
+        return bool((letter[0] >> self.pbits) == self.address and (letter[1] or letter[2]))
+
+    def gen(self, rng, t):
+        base = self.address << self.pbits
+        x = rng.random()
+        if x < 0.8:
+            adr = base + rng.randrange(min(self.nwords, 1 << self.pbits))
+        elif x < 0.9:
+            adr = base + rng.randrange(1 << self.pbits)
+        else:
+            adr = rng.randrange(1 << self.aw)
+        y = rng.random()
+        re, we = (0, 0) if y < 0.15 else (1, 0) if y < 0.5 else (0, 1)
+        return (adr, re, we, rng.getrandbits(self.bw), rng.getrandbits(self.page_bits) if self.page_bits else 0)
+
+    def monitor(self):
+        return SramMonitor(self)
+
+
+class SramMonitor:
+    """Reference memory: a write to the last sub-word of a memory word stores Cat(dat_w, staged sub-words);
+    a read returns, one cycle later, the addressed sub-word of the addressed (paged) memory word; 0 when the
+    window was not addressed."""
+
+    def __init__(self, inst):
+        self.i = inst
+        self.mem = [(inst.init[a] if a < len(inst.init) else 0) & ((1 << inst.width) - 1) for a in range(inst.depth)]
+        self.stage = [0] * (inst.cpm - 1)
+        self.pending = None     # (memory word index, sub-word) addressed in the previous cycle
+        self.skip = False
+
+    def observe(self, letter, outs):
+        I = self.i
+        adr, re, we, dat, pv = letter
+        msg = None
+        exp = 0
+        if self.pending is not None:
+            w, sub = self.pending
+            exp = None if self.mem[w] is None else (self.mem[w] >> ((I.cpm - 1 - sub) * I.bw)) & ((1 << I.bw) - 1)
+        if exp is not None and not self.skip and outs[0] != exp:
+            msg = "dat_r = %#x, expected %#x (content of the memory word addressed in the previous cycle)" % (outs[0], exp)
+        self.skip = False
+        self.pending = None
+        if (adr >> I.pbits) == I.address:
+            idx = adr & ((1 << I.pbits) - 1)
+            wbits = (I.cpm - 1).bit_length()
+            sub = idx & ((1 << wbits) - 1)
+            inpage = idx >> wbits
+            words_per_page = (1 << I.pbits) >> wbits
+            w = inpage + (pv * words_per_page if I.page_bits else 0)
+            if w >= I.depth or sub >= I.cpm:
+                # outside the populated window: unspecified (the simulator clamps the array index)
+                self.skip = True
+                if we and not I.read_only:
+                    self.mem = [None] * I.depth
+            else:
+                if we and not I.read_only:
+                    if sub == I.cpm - 1:
+                        v = dat & ((1 << I.bw) - 1)
+                        for k, s in enumerate(reversed(self.stage)):
+                            v |= s << ((k + 1) * I.bw)
+                        self.mem[w] = v & ((1 << I.width) - 1)
+                    else:
+                        self.stage[sub] = dat & ((1 << I.bw) - 1)
+                self.pending = (w, sub)
+        return msg
+
+
+class _Periph:
+    """A CSR-bearing object as CSRBankArray expects it (`get_csrs`, `get_memories`)."""
+
+    def __init__(self, csrs, mems):
+        self._csrs, self._mems = csrs, mems
+
+    def get_csrs(self):
+        return list(self._csrs)
+
+    def get_memories(self):
+        return list(self._mems)
+
+
+class ArrayInst:
+    """Real `CSRBankArray` over a source object with several CSR-bearing attributes, connected to one master
+    through `Interconnect` or to several through `InterconnectShared`.
+      periphs: list of (attr name, [Reg], [(width, depth, read_only, init)])   (attribute names sort = scan order)
+      address_map: attr name -> bank number, (attr name, k-th memory) -> window number
+    Letter = (adr, re, we, dat_w) per master + (dev_we, dev_dat) per register of every bank (bank order).
+    Outputs = [dat_r] + per register [val, re, we, r] + storage fields."""
+
+    def __init__(self, name, periphs, bank_addr, mem_addr, bw=8, ordering="big", paging=0x800, aw=14, nmasters=1,
+                 data_values=(0xA5A5A5A5A5, 0x5A5A5A5A5A), dev_values=(0x3C3C3C3C3C,), m1_letters=None):
+        from migen import Memory
+        self.name, self.bw, self.aw, self.nmasters = name, bw, aw, nmasters
+        self.pbits = _log2(paging // 4)
+
+        class Src:
+            pass
+        src = Src()
+        self.objs = {}
+        mems_by_id = {}
+        for pname, regs, mems in periphs:
+            objs = [build_reg(r, r.name or "%s_r%d" % (pname, k)) for k, r in enumerate(regs)]
+            mobjs = []
+            for mi, (w, d, ro, init) in enumerate(mems):
+                m = Memory(w, d, init=init, name="%s_mem%d" % (pname, mi))
+                mems_by_id[id(m)] = (pname, mi)
+                mobjs.append((ro, m) if ro else m)
+            setattr(src, pname, _Periph(objs, mobjs))
+            self.objs[pname] = objs
+
+        def address_map(nm, memory):
+            if memory is None:
+                return bank_addr[nm]
+            return mem_addr[mems_by_id[id(memory)]]
+        self.array = _csr_bus.CSRBankArray(src, address_map, data_width=bw, address_width=aw, paging=paging,
+                                           ordering=ordering)
+        self.masters = [_csr_bus.Interface(data_width=bw, address_width=aw) for _ in range(nmasters)]
+        top = Module()
+        top.submodules += self.array
+        if nmasters == 1:
+            top.submodules += _csr_bus.Interconnect(self.masters[0], self.array.get_buses())
+        else:
+            top.submodules += _csr_bus.InterconnectShared(self.masters, self.array.get_buses())
+        self.netlist = Netlist(top)
+        # ---- describe what was built (from the real array, in its own order)
+        self.bank_regs = []
+        self.ports = []
+        toks = [nmasters, len(self.array.banks)]
+        page_loc = {}
+        for bi, (nm, csrs, mapaddr, rmap) in enumerate(self.array.banks):
+            regs = [spec_of(c) for c in csrs]
+            self.bank_regs.append(regs)
+            for ri, (r, c) in enumerate(zip(regs, csrs)):
+                self.ports.append(RegPorts(r, c))
+                page_loc[id(c)] = (bi, ri)
+            toks.append("%d %d %d %d %s" % (bw, 0 if ordering == "big" else 1, self.pbits, mapaddr, lean_regs(regs)))
+        toks.append(len(self.array.srams))
+        self.windows = []
+        for (nm, memory, mapaddr, mmap) in self.array.srams:
+            ro = not hasattr(mmap, "specials") and False
+            port = list(memory.ports)[0]
+            ro = port.we is None
+            init = list(memory.init or [])
+            toks.append(lean_sram(bw, self.pbits, mapaddr, memory.width, memory.depth, ro, init))
+            if mmap._page is not None:
+                bi, ri = page_loc[id(mmap._page)]
+                toks.append("1 %d %d" % (bi, ri))
+            else:
+                toks.append("0 0 0")
+            self.windows.append((mapaddr, memory.depth * (-(-memory.width // bw))))
+        self.lean_open = "array " + " ".join(map(str, toks))
+        self.all_regs = [r for regs in self.bank_regs for r in regs]
+        self.qual = [None]
+        base = 1
+        for p in self.ports:
+            q = [None] * p.nouts()
+            if p.reg.kind == RAW:
+                q[3] = base + 1
+            self.qual += q
+            base += p.nouts()
+        # ---- alphabet
+        dmask = (1 << bw) - 1
+        adrs = []
+        for (nm, csrs, mapaddr, rmap) in self.array.banks:
+            adrs += [(mapaddr << self.pbits) + a for a in range(min(len(rmap.simple_csrs), 1 << self.pbits))]
+        for (mapaddr, nw) in self.windows:
+            adrs += [(mapaddr << self.pbits) + a for a in range(min(nw, 1 << self.pbits))]
+        used = set(bank_addr.values()) | set(mem_addr.values())
+        free = next(a for a in range(64) if a not in used)
+        adrs.append(free << self.pbits)
+        self.adrs = adrs
+        m0 = []
+        for a in adrs:
+            m0.append((a, 0, 0, 0))
+            m0.append((a, 1, 0, 0))
+            for d in data_values:
+                m0.append((a, 0, 1, d & dmask))
+        if nmasters > 1:
+            m1 = m1_letters or [(0, 0, 0, 0), (adrs[0], 0, 1, data_values[-1] & dmask), (adrs[-2], 1, 0, 0)]
+            ml = [x + y for x in m0 for y in m1]
+            for _ in range(nmasters - 2):
+                ml = [x + (0, 0, 0, 0) for x in ml]
+        else:
+            ml = m0
+        nodev = [(0, 0)] * len(self.all_regs)
+        devl = [tuple(nodev)]
+        for k, r in enumerate(self.all_regs):
+            for ch in dev_choices(r, dev_values):
+                l = list(nodev)
+                l[k] = ch
+                devl.append(tuple(l))
+        self.alphabet = [m + tuple(itertools.chain(*d)) for m in ml for d in devl]
+        self.inputs = self.outputs = None
+
+    def apply(self, letter):
+        n = self.netlist
+        for mi, m in enumerate(self.masters):
+            adr, re, we, dat = letter[4 * mi:4 * mi + 4]
+            n.set(m.adr, adr); n.set(m.re, re); n.set(m.we, we); n.set(m.dat_w, dat)
+        o = 4 * self.nmasters
+        for k, p in enumerate(self.ports):
+            p.drive(n, letter[o + 2 * k], letter[o + 2 * k + 1])
+        n.settle()
+
+    def sample(self):
+        n = self.netlist
+        d = [n.getu(m.dat_r) for m in self.masters]
+        outs = [d[0] if all(x == d[0] for x in d) else -1]
+        for p in self.ports:
+            outs += p.sample(n)
+        return outs
+
+    def nontrivial(self, letter, outs):
+        return bool(any(letter[4 * mi + 1] or letter[4 * mi + 2] for mi in range(self.nmasters))
+                    or any(letter[4 * self.nmasters + 2 * k] for k in range(len(self.ports))))
+
+    def gen(self, rng, t):
+        dmask = (1 << self.bw) - 1
+        letter = []
+        active = rng.randrange(self.nmasters)
+        for mi in range(self.nmasters):
+            if mi != active and rng.random() < 0.9:
+                letter += [0, 0, 0, 0]
+                continue
+            adr = rng.choice(self.adrs) if rng.random() < 0.85 else rng.randrange(1 << self.aw)
+            y = rng.random()
+            re, we = (0, 0) if y < 0.15 else (1, 0) if y < 0.5 else (0, 1)
+            letter += [adr, re, we, rng.choice((0, dmask, rng.getrandbits(self.bw), rng.getrandbits(self.bw)))]
+        for r in self.all_regs:
+            m = (1 << r.eff_size()) - 1
+            if r.kind == STORAGE:
+                letter += [1 if (r.wfd and rng.random() < 0.15) else 0, rng.getrandbits(r.eff_size()) if r.wfd else 0]
+            else:
+                letter += [0, rng.choice((0, m, rng.getrandbits(r.eff_size())))]
+        return tuple(letter)
